@@ -10,7 +10,7 @@
    Models: Model/Errors.v (error terms, errors.Is / errors.As, the wrappers of compose/error.go,
    the run loop's error paths over a forest of nested graphs, the public paradigms) and
    Model/ErrorsFwd.v (MergeStreamReaders over forwarded sources) — both evaluated by Corr/C13.v. *)
-From Eino Require Import Base.Util Model.Errors Model.ErrorsFwd Model.ErrorsNilPanic Proofs.Errors Proofs.ErrorsRun Proofs.ErrorsFwd Proofs.ErrorsMsg Proofs.ErrorsOrigin Proofs.ErrorsE2E Proofs.ErrorsFwdStream Proofs.ErrorsGuard Proofs.ErrorsKeep Proofs.ErrorsHandlers.
+From Eino Require Import Base.Util Model.Errors Model.ErrorsFwd Model.ErrorsNilPanic Model.ErrorsResume Proofs.ErrorsResume Proofs.Errors Proofs.ErrorsRun Proofs.ErrorsFwd Proofs.ErrorsMsg Proofs.ErrorsOrigin Proofs.ErrorsE2E Proofs.ErrorsFwdStream Proofs.ErrorsGuard Proofs.ErrorsKeep Proofs.ErrorsHandlers.
 Open Scope string_scope.
 
 (* ------------------------------------------------------------------ the path *)
@@ -687,3 +687,35 @@ Example panic_nonvacuous :
       (answers F PInvoke false None)
   = [ (["t"; "tn"], Some 9%N); (["q"], Some 4%N) ].
 Proof. vm_compute. reflexivity. Qed.
+
+(* ------------------------------------------------------------------ runs resumed from a checkpoint *)
+
+(* A run that is interrupted (a node asked for interrupt-and-rerun) and resumed from its checkpoint
+   until it no longer interrupts (at most n times) is a run: its legal answers are the answers of the
+   forest after k <= n resumes, and when fewer than n resumes were needed that answer is not an
+   interrupt.  Every theorem above about [answers] / [run_graph] of an arbitrary forest therefore
+   speaks about resumed runs ([resumed_answers] is what the correspondence evaluates on resumed cases). *)
+Theorem resumed_run_is_a_run : forall n F p cb ii,
+  exists k, (k <= n)%nat /\
+    resumed_answers_n n F p cb ii = answers (Nat.iter k round F) p cb ii /\
+    ((k < n)%nat -> is_interrupt_answer (answers (Nat.iter k round F) p cb ii) = false).
+Proof. exact resumed_is_answers. Qed.
+Print Assumptions resumed_run_is_a_run.
+
+(* A resume changes no key, no flavour, no sub-graph index, no trigger mode, limit or branch: the node
+   paths a resumed run can name are paths of the forest the caller built. *)
+Theorem resume_keeps_shape : forall k F, map graph_shape (Nat.iter k round F) = map graph_shape F.
+Proof. exact iter_round_shape. Qed.
+Print Assumptions resume_keeps_shape.
+
+(* non-vacuity: two successive interrupts two levels down, then a failure behind them: the resumed
+   run names [sub; x] and carries x's error; without the resumes the answer is the interrupt *)
+Example resumed_run_nonvacuous :
+  let F := [ mkGraph false [[NLam "a" FI BOk]; [NSub "sub" 1]] false 0 BrNone;
+             mkGraph true [[NLam "r1" FI BRerun]; [NLam "r2" FC BRerun; NLam "side" FI BOk]; [NLam "x" FI (BFail (Custom 1 3))]] false 0 BrNone ] in
+  answers F PStream false None = [AErr InterruptE] /\
+  map (fun a => match a with AErr e => (msg_path e, as_custom 1 e) | _ => ([], None) end) (resumed_answers F PStream false None)
+  = [ (["sub"; "x"], Some 3%N) ] /\
+  resumed_answers_n 1 F PStream false None = [AErr InterruptE].
+Proof. repeat split; vm_compute; reflexivity. Qed.
+
